@@ -406,6 +406,10 @@ func (g *gen) declareVars(c *Case) {
 		switch t {
 		case "account":
 			val = J{"t": "acct", "v": pick(r, append(append([]string{}, cfg.accts...), cfg.dsts...))}
+			if r.Intn(8) == 0 {
+				// names with every character an account name may contain
+				val = J{"t": "acct", "v": pick(r, []string{"acme-corp:main", "eu-west:pay_outs", "A1:b-2:C_3", "x-1"})}
+			}
 			if cfg.worldVars && r.Intn(4) == 0 {
 				val = J{"t": "acct", "v": "world"}
 			}
@@ -663,12 +667,14 @@ func corpusCfg(name string) genCfg {
 		base.sendAllRate = 4
 		base.srcDepth, base.dstDepth = 2, 2
 		base.maxVars = 2
+		base.worldVars = true
 	case "pairvars": // C07 C09: both sides rich, amounts and caps given by (re-used) monetary variables, several statements
 		base.sendAllRate = 5
 		base.srcDepth, base.dstDepth = 2, 2
 		base.maxVars, base.maxStmts = 4, 3
 		base.wSend, base.wSave, base.wTx, base.wAm = 8, 1, 1, 0
 		base.monVars = true
+		base.worldVars = true
 		base.infix = true
 		base.assets = []string{"USD"}
 		base.balNums = []int{0, 2, 3, 5, 10, 12, 30, 100}
